@@ -39,6 +39,8 @@ void (*on_step_limit)() = nullptr;
 size_t step_limit = 200000;
 
 template <class F> static F real(const char *n) { return (F)dlsym(RTLD_NEXT, n); }
+static int fail_creates = 0;   // injected pthread_create failures still to deliver
+void fail_next_thread_creations(int k) { fail_creates = k; }
 extern "C" int __interceptor_pthread_create(pthread_t *, const pthread_attr_t *, void *(*)(void *), void *) __attribute__((weak));
 extern "C" int __interceptor_pthread_join(pthread_t, void **) __attribute__((weak));
 
@@ -242,6 +244,7 @@ int pthread_create(pthread_t *t, const pthread_attr_t *a, void *(*fn)(void *), v
     auto rc = __interceptor_pthread_create ? __interceptor_pthread_create
                                            : real<int (*)(pthread_t *, const pthread_attr_t *, void *(*)(void *), void *)>("pthread_create");
     if (!on || !me) return rc(t, a, fn, arg);
+    if (fail_creates > 0) { --fail_creates; point(); return EAGAIN; }   // injected fault: no thread is created
     Th *n = new Th; n->id = (int)ths.size(); sem_init(&n->sem, 0, 0); n->fn = fn; n->arg = arg;
     ths.push_back(n);
     if (sched_mode == 1) { prio.resize(ths.size(), 0); prio[(size_t)n->id] = pct_prio(n->id); }
